@@ -91,7 +91,13 @@ type faultRun struct {
 	kind     string
 }
 
+// how many leading matches of a statement kind fail in the persistent runs
+var persistentKs = []int{1, 3}
+
 func runFault(ctx context.Context, w *out.W, tier, tmp, outDir, only string) {
+	if tier == "thorough" {
+		persistentKs = []int{1, 2, 3, 5}
+	}
 	w.Rule = "every statement `schema apply` sends through sqlitefault:// fails once (one run per statement), for rebuild / drop plans on populated parent-child databases, _fk=1 (and 0), --tx-mode file and none; non-trivial = a fault at a statement of the opener, the plan or the closer"
 	w.Exhaust = true
 	wantFKLine = false
@@ -423,7 +429,7 @@ func faultCaseMode(ctx context.Context, w *out.W, c *Case, m Mode, root string, 
 		if !hit {
 			continue
 		}
-		for _, k := range []int{1, 2, 3, 5} {
+		for _, k := range persistentKs {
 			var specs []string
 			for j := 1; j <= k; j++ {
 				specs = append(specs, fmt.Sprintf("%s@%d", kd.re, j))
